@@ -15,7 +15,7 @@ import (
 
 func init() {
 	PropertyText["C03"] = [2]string{
-		"Decides the structural preconditions of a terminating, finalising stop: the necessary ordering pairs inside stopPipeline and that every component is stopped on every path (R-STOP-ORDER); each stage Stop cancels before it waits and every goroutine it waits for is registered with the WaitGroup and signals Done (R-STAGE-STOP); no goroutine a Stop waits for contains a channel operation that cannot be abandoned on a context that Stop cancels (R-CTX-SELECT, with derived exemptions listed in the evidence); the WARC clients are never dereferenced where they can be nil (R-NIL-CLIENT) and archiver.Stop waits for and closes every client that exists (R-WARC-CLOSE); watcher loops leave on their Done arm (R-WATCHER-EXIT); Resume cannot wedge the watcher stop (R-RESUME-GUARD). Blocking channel operations in functions those goroutines call, in any component, are abandonable through a context cancelled no later than the goroutine's own component is stopped, by stopPipeline's order (R-CALLEE-WAKE). Components that startPipeline starts only under a configuration condition are called from outside only under that condition, so a switched-off component's nil state is never dereferenced (R-OPTIONAL-COMPONENT). Every WARC client gets its Timeout (R-CLIENT-TIMEOUT); the per-attempt feedback channel has room for the writer's plain send (R-WARC-WAIT/feedback-capacity).",
+		"Decides the structural preconditions of a terminating, finalising stop: the necessary ordering pairs inside stopPipeline and that every component is stopped on every path (R-STOP-ORDER); each stage Stop cancels before it waits and every goroutine it waits for is registered with the WaitGroup and signals Done (R-STAGE-STOP); no goroutine a Stop waits for contains a channel operation that cannot be abandoned on a context that Stop cancels (R-CTX-SELECT, with derived exemptions listed in the evidence); the WARC clients are never dereferenced where they can be nil (R-NIL-CLIENT) and archiver.Stop waits for and closes every client that exists (R-WARC-CLOSE); watcher loops leave on their Done arm (R-WATCHER-EXIT); Resume cannot wedge the watcher stop (R-RESUME-GUARD). Blocking channel operations in functions those goroutines call, in any component, are abandonable through a context cancelled no later than the goroutine's own component is stopped, by stopPipeline's order (R-CALLEE-WAKE). Components that startPipeline starts only under a configuration condition are called from outside only under that condition, so a switched-off component's nil state is never dereferenced (R-OPTIONAL-COMPONENT). Every WARC client gets its Timeout (R-CLIENT-TIMEOUT); the per-attempt feedback channel has room for the writer's plain send (R-WARC-WAIT/feedback-capacity). No sleep in the fetch goroutine lasts as long as the server says (R-SLEEP-BOUNDED); every stop function cancels before it waits (R-STOP-CANCEL-FIRST).",
 		"Not decided: the time bound itself; the warc module's Close() renaming .open files and record completeness; behaviour of an in-flight client.Do under cancellation (depends on dial/read timeouts).",
 	}
 	register(&core.Rule{ID: "R-STOP-ORDER", Props: []string{"C03", "C04"}, Doc: "stopPipeline calls every component's Stop on every path, with the necessary precedences: stage Stops and source Stop before reactor.Stop, finisher.Stop before source Stop, preprocessor.Stop before seencheck.Close, reactor.Freeze before source Stop, log.Stop last", Run: ruleStopOrder})
